@@ -10,11 +10,11 @@ class C15(core.Prop):
     prop_file = "C15.v"
     impl_module = "client"
     entry = "client"
-    correspondence = ("BaseClient.process_message (direct, re-parsed from the wire, through the real client connection handler with arbitrary "
+    correspondence = ("BaseClient.process_message (direct, re-parsed from the wire, through the library's own TCP.connect (socket replaced by a pipe) and its connection handler with arbitrary "
                       "fragmentation, and a SnoopingClient on a router) vs Client.Model.apply")
     rule = ("streams of def*/set*/delProperty/message/ping over 2 devices x 3 properties x 3 elements (redefinition, partial updates, kind "
             "mismatches, unknown targets, empty/absent/mis-sized/non-base64 BLOB payloads, duplicate children, whole-device deletion), "
-            "delivered as objects, re-parsed from their serialisation, in foreign spellings through the network handler in random pieces, or via "
+            "delivered as objects, re-parsed from their serialisation, in foreign spellings through the network handler in random pieces (image updates of up to 6 KB on the BLOB connection), or via "
             "a router to a snooping client; non-trivial = stream with at least one accepted definition; distinct by content")
     assumptions = ["the public view (list_devices / list_vectors / list_elements, .state/.label/.group/.value) is compared, dict order included"]
 
